@@ -360,6 +360,9 @@ RULE_TEXT = {
                  "by an evaluated operation (failing ones included) satisfies the class invariant afterwards",
     "R-REG.unchanged": "R-REG (C14 view): the state of every operand is identical before and after each evaluated "
                        "operation; refused in-place operations leave the target unchanged",
+    "R-REG.divzero": "R-REG (C19 view): generating B-splines from every knot sequence (all multiplicity patterns up to the "
+                     "length bound, orders 0..3) never divides by a value that is exactly zero - an exact field type has "
+                     "no infinity, so the zero-width guards must precede the division",
     "R-REG.const": "constant propagation through faculty / facultyRatio / binomialCoefficient for arguments 0..9 equals "
                    "n!, a!/b!, C(n,k)",
 }
